@@ -116,6 +116,7 @@ def run(ctx):
         if rc != 0 or not s2:
             ctx.violation("conc:handtrace:crash", {"stderr": err[-2000:], "total": total, "args": extra},
                           what="the store died during the recorded hand-over workload (TotalSize %s): %s" % (total, err[-300:]))
+            files += [os.path.join(d, f) for f in sorted(os.listdir(d))]      # what was recorded up to the death is validated too
             continue
         for o in outs:
             if "what" in o:
